@@ -108,26 +108,12 @@ Definition has_type (bm : list N) (t : N) : bool := existsb (N.eqb t) bm.
 Definition types_set (bm ts : list N) : bool := existsb (fun x => existsb (N.eqb x) ts) bm.
 (* aggressiveDelegationBitmap *)
 Definition deleg_bitmap (bm : list N) : bool := types_set bm [T_NS] && negb (types_set bm [T_SOA]).
-(* aggressiveNODATAType: the excluded identifiers are re-read from the source on
-   every run (Gen.C02.nodata_excluded_names); their numeric values are the
-   IANA/miekg constants below.  An identifier the table does not know maps
-   outside uint16 and makes gen_nodata_excluded_known fail (broken tie). *)
+(* aggressiveNODATAType: the function srcgen translates from the source on every run
+   (Gen.C02.go_aggressiveNODATAType, purefunc with the miekg type constants resolved);
+   Proofs_Gen.gen_aggressive_nodata_type states the set it excludes *)
 Definition bytes_of_string (s : String.string) : list N :=
   map (fun a => N.of_nat (Ascii.nat_of_ascii a)) (String.list_ascii_of_string s).
-Definition type_code_table : list (list N * N) :=
-  map (fun p => (bytes_of_string (fst p), snd p))
-    [ ("TypeNone", 0); ("TypeA", 1); ("TypeNS", 2); ("TypeCNAME", 5); ("TypeSOA", 6); ("TypePTR", 12);
-      ("TypeMX", 15); ("TypeTXT", 16); ("TypeAAAA", 28); ("TypeSRV", 33); ("TypeDNAME", 39); ("TypeOPT", 41);
-      ("TypeDS", 43); ("TypeRRSIG", 46); ("TypeNSEC", 47); ("TypeDNSKEY", 48); ("TypeNSEC3", 50);
-      ("TypeNSEC3PARAM", 51); ("TypeTKEY", 249); ("TypeTSIG", 250); ("TypeIXFR", 251); ("TypeAXFR", 252);
-      ("TypeMAILB", 253); ("TypeMAILA", 254); ("TypeANY", 255) ]%string.
-Definition type_code (nm : list N) : N :=
-  match find (fun p => list_eqb N.eqb (fst p) nm) type_code_table with
-  | Some p => snd p
-  | None => 65536
-  end.
-Definition nodata_excluded : list N := map type_code nodata_excluded_names.
-Definition aggressive_nodata_type (t : N) : bool := negb (existsb (N.eqb t) nodata_excluded).
+Definition aggressive_nodata_type (t : N) : bool := go_aggressiveNODATAType t.
 
 Definition star : label := [42].
 
